@@ -379,7 +379,7 @@ DesignatorRank(c, datePart) ==
 CompSeconds(ds, us) ==
   IF us = 604800 THEN MulChain(Mk(FALSE, MFromDigits(ds)), <<86400, 7>>) ELSE MulSmall(Mk(FALSE, MFromDigits(ds)), us)
 
-\* state: [i, date (in the date section), ok, comps (well-formed components so far: [secs, fr, hasF]), rank, ordered]
+\* state: [i, date (in the date section), ok, comps (well-formed components so far: [secs, fr, hasF]), rank, ordered, pend]
 RECURSIVE DurLoop(_, _)
 DurLoop(t, st) ==
   LET n == Len(t) i == st.i IN
@@ -395,25 +395,27 @@ DurLoop(t, st) ==
            hasF == At(t, e, ChDot) \/ At(t, e, ChComma)
            f2  == IF hasF THEN RunEnd(t, e + 1) ELSE e
            fr  == IF hasF THEN RunDigits(t, e + 1, f2) ELSE <<>>
-       IN IF f2 > n \/ (hasF /\ f2 = e + 1) THEN [st EXCEPT !.ok = FALSE]
+       \* pend: the fraction of the failing component when the library has already added it to the sum before it
+       \* notices the error (fraction at the very end of the text, or a fractional S in the date section)
+       IN IF f2 > n \/ (hasF /\ f2 = e + 1) THEN [st EXCEPT !.ok = FALSE, !.pend = IF hasF /\ f2 > e + 1 THEN fr ELSE <<>>]
           ELSE LET c  == t[f2]
                    us == DesignatorSeconds(c, st.date)
-               IN IF us = 0 \/ (hasF /\ c # ChS) THEN [st EXCEPT !.ok = FALSE]
+               IN IF us = 0 \/ (hasF /\ c # ChS) THEN [st EXCEPT !.ok = FALSE, !.pend = IF hasF /\ c = ChS THEN fr ELSE <<>>]
                   ELSE LET rk == DesignatorRank(c, st.date) IN
                        DurLoop(t, [st EXCEPT !.i = f2 + 1,
                                              !.comps = Append(@, [secs |-> CompSeconds(ds, us), fr |-> fr, hasF |-> hasF]),
                                              !.ordered = @ /\ rk > st.rank,
                                              !.rank = rk])
 
-\* [ok, hasP, neg, comps, strict]; when ok = FALSE comps are the well-formed components before the error
+\* [ok, hasP, neg, comps, strict, pend]; when ok = FALSE comps are the well-formed components before the error
 DurScan(t) ==
   LET n   == Len(t)
       sgn == IF At(t, 1, ChPlus) THEN 1 ELSE IF At(t, 1, ChMinus) THEN -1 ELSE 0
       p1  == IF sgn = 0 THEN 1 ELSE 2
-  IN IF ~At(t, p1, ChP) THEN [ok |-> FALSE, hasP |-> FALSE, neg |-> (sgn = -1), comps |-> <<>>, strict |-> FALSE]
-     ELSE LET st == DurLoop(t, [i |-> p1 + 1, date |-> TRUE, ok |-> TRUE, comps |-> <<>>, rank |-> 0, ordered |-> TRUE])
+  IN IF ~At(t, p1, ChP) THEN [ok |-> FALSE, hasP |-> FALSE, neg |-> (sgn = -1), comps |-> <<>>, strict |-> FALSE, pend |-> <<>>]
+     ELSE LET st == DurLoop(t, [i |-> p1 + 1, date |-> TRUE, ok |-> TRUE, comps |-> <<>>, rank |-> 0, ordered |-> TRUE, pend |-> <<>>])
               ok == st.ok /\ Len(st.comps) > 0
-          IN [ok |-> ok, hasP |-> TRUE, neg |-> (sgn = -1), comps |-> st.comps,
+          IN [ok |-> ok, hasP |-> TRUE, neg |-> (sgn = -1), comps |-> st.comps, pend |-> st.pend,
               strict |-> ok /\ st.ordered /\ st.i > n /\ (\A j \in 1..Len(st.comps) : Len(st.comps[j].fr) <= 9)]
 
 \* total whole seconds and the fraction of the first j components
